@@ -63,8 +63,9 @@ func add(
 	}
 
 	return func(e *am.Event) {
-		// flat skips unnecessary mutations
-		if flat && target.Is(names) {
+		// flat skips unnecessary mutations (an idle target only, queued ones
+		// may still change the state)
+		if flat && targetIdle(target) && target.Is(names) {
 			return
 		} else if flat {
 			if target.IsLocal() {
@@ -82,6 +83,11 @@ func add(
 			})
 		}
 	}
+}
+
+// targetIdle tells if the target has nothing queued and nothing running.
+func targetIdle(target am.Api) bool {
+	return target.QueueLen() == 0 && target.Transition() == nil
 }
 
 // Remove adds a pipe for a Remove mutation between source and target
@@ -122,8 +128,9 @@ func remove(
 	target.OnDispose(gcHandler(source))
 
 	return func(e *am.Event) {
-		// flat skips unnecessary mutations
-		if flat && target.Not1(targetState) {
+		// flat skips unnecessary mutations (an idle target only, queued ones
+		// may still change the state)
+		if flat && targetIdle(target) && target.Not1(targetState) {
 			return
 		} else if flat {
 			if target.IsLocal() {
